@@ -8,8 +8,8 @@ import re
 PROPERTY = "C16"
 LEVEL = "exploration"
 RULE = (
-    "order/equality/hash/supports: EXHAUSTIVE over all pairs of the 108 references {aa,ab} x {aa.bb,aa.bc} x {0,1,2}^3 "
-    "(plain PluginRef and group-specific subclasses mixed), transitivity over triples (sampled in quick, all 1.26M in "
+    "order/equality/hash/supports: EXHAUSTIVE over all pairs of the 324 references {aa,ab} x {aa.bb,aa.bc} x {0,1,2}^3 x "
+    "{plain PluginRef, two SIBLING subclasses}, transitivity over triples (sampled in quick, all 1.26M in "
     "thorough), sorted() vs sort by key. Version tables: every subset of <=3 (quick; thorough <=4) versions of a "
     "12-element pool in EVERY registration order through both registration paths (_add_ep on a fresh plugin-group "
     "instance with synthetic entry points; register_in_group with generated schema classes), every request version of "
@@ -36,13 +36,29 @@ def spec_supports(a, b):
     return a.group == b.group and a.name == b.name and a.version[0] == b.version[0] and a.version[1] >= b.version[1]
 
 
+_refs = []
+
+
 def all_refs():
+    """Every (group, name, version) in THREE class variants: plain PluginRef and two sibling subclasses (two independent
+    results of _subclass_for, as different plugin groups / user marker classes produce them)."""
+    if _refs:
+        return _refs
     from metador_core.schema.plugins import PluginRef
-    subs = {g: PluginRef._subclass_for(g) for g in GROUPS}
-    refs = []
-    for i, (g, n, v) in enumerate(itertools.product(GROUPS, NAMES, VERS)):
-        refs.append(PluginRef(group=g, name=n, version=v) if i % 2 == 0 else subs[g](name=n, version=v))
-    return refs
+    subs_a = {g: PluginRef._subclass_for(g) for g in GROUPS}
+    subs_b = {g: PluginRef._subclass_for(g) for g in GROUPS}
+
+    class Marker(PluginRef):
+        """user-defined marker subclass (the docstring of PluginRef invites these)"""
+
+    for g, n, v in itertools.product(GROUPS, NAMES, VERS):
+        _refs.append(PluginRef(group=g, name=n, version=v))
+        _refs.append(subs_a[g](name=n, version=v))
+        _refs.append(subs_b[g](name=n, version=v) if (len(_refs) // 3) % 2 else Marker(group=g, name=n, version=v))
+    return _refs
+
+
+NREFS = 108 * 3
 
 
 def check_pairs(acc, lo, hi):
@@ -51,12 +67,16 @@ def check_pairs(acc, lo, hi):
     for idx in range(lo, hi):
         a, b = refs[idx // n], refs[idx % n]
         ka, kb = key(a), key(b)
-        acc.case(["pair", ka, kb], nontrivial=ka != kb)
+        acc.case(["pair", idx], nontrivial=ka != kb or type(a) is not type(b))
+        if ka == kb and type(a) is not type(b):
+            acc.count("equal_value_pairs_across_classes")
         obs = {
+            "in-list": a in [b], "set-size": len({a, b}) == 1,
             "==": a == b, "!=": a != b, "<": a < b, "<=": a <= b, ">": a > b, ">=": a >= b,
             "hash==": hash(a) == hash(b), "supports": a.supports(b),
         }
         want = {
+            "in-list": ka == kb, "set-size": ka == kb,
             "==": ka == kb, "!=": ka != kb, "<": ka < kb, "<=": ka <= kb, ">": ka > kb, ">=": ka >= kb,
             "hash==": True if ka == kb else obs["hash=="], "supports": spec_supports(a, b),
         }
@@ -242,14 +262,14 @@ def orders(tier):
 
 def units(tier, seed):
     us = []
-    npairs = 108 * 108
-    for lo in range(0, npairs, 1458):
-        us.append({"kind": "pairs", "lo": lo, "hi": min(npairs, lo + 1458)})
+    npairs = NREFS * NREFS
+    for lo in range(0, npairs, 6561):
+        us.append({"kind": "pairs", "lo": lo, "hi": min(npairs, lo + 6561)})
     if tier == "quick":
         for i in range(8):
             us.append({"kind": "triples", "seed": seed * 17 + i, "n": 8000})
     else:
-        for i in range(108):
+        for i in range(NREFS):
             us.append({"kind": "triples-ex", "slice": i})
     os_ = orders(tier)
     chunk = 400 if tier == "quick" else 1500
@@ -292,13 +312,13 @@ def run_unit(u, acc):
 
 def inconclusive(cov):
     c = cov["counters"]
-    return [f"monitor counter {k} is zero" for k in ("pair_observations", "triples", "table_observations", "codec_roundtrips", "undef_checks", "sort_checks") if not c.get(k)]
+    return [f"monitor counter {k} is zero" for k in ("pair_observations", "triples", "table_observations", "codec_roundtrips", "undef_checks", "sort_checks", "equal_value_pairs_across_classes") if not c.get(k)]
 
 
 def replay(case, acc):
     k = case.get("kind") or case.get("path")
     if k in ("pair", "sorted", "triple"):
-        check_pairs(acc, 0, 108 * 108)
+        check_pairs(acc, 0, NREFS * NREFS)
         check_triples(acc, 0, 20000)
     elif k == "ep":
         check_table_ep(acc, [tuple(v) for v in case["order"]], [tuple(v) for v in case["other"]])
